@@ -18,6 +18,9 @@ type Obj struct {
 	N    int        // number of cells when Seq and known, else -1
 	Src  bool       // unwritten cells are input sources (else zero values)
 	Len  *BV        // for Seq objects: the length (may be symbolic)
+	// NonNil: a pointer to this object is known not to be nil (set by a
+	// check's seeding when the analysed function dereferences it first).
+	NonNil bool
 }
 
 func (o *Obj) String() string { return o.Name }
